@@ -465,6 +465,10 @@ func runInjections(run *core.Run, nRandom, nExhaustive int) {
 	core.Parallel(nRandom, func(i int) {
 		r := run.Rng("inj", i)
 		g := &gen.DSLGen{R: r}
+		if i%400 == 123 {
+			g.ForceDeep = 40 + r.Intn(25) // "at whatever position and nesting depth": injection sites 40-65 groups deep
+			run.Count("injection_documents_with_40_to_65_nested_groups", 1)
+		}
 		base := g.Doc(r.Intn(3) == 0)
 		for t := 0; t < 4; t++ {
 			k := r.Intn(nInjKinds)
@@ -638,6 +642,9 @@ func runC09(run *core.Run) {
 	core.Parallel(nValid, func(i int) {
 		r := run.Rng("inj", i) // same ASTs as the injection stream
 		g := &gen.DSLGen{R: r}
+		if i%400 == 123 {
+			g.ForceDeep = 40 + r.Intn(25)
+		}
 		d := g.Doc(r.Intn(3) == 0)
 		txt := d.Render(&gen.Layout{R: r, Wild: true, Comments: true})
 		var err error
